@@ -56,10 +56,22 @@ def gateStep (cfg : FCfg) (open_ : Bool) (s : FStep) : Bool :=
     | .new | .newFinal | .undo => decide (s.num ≥ cfg.gateStart)
     | _ => false
 
+/-- the content number of a block: the harness names the blocks of branch `x` `<num>x`; branch `a` is the
+canonical chain of every other harness (salt 0) -/
+def saltOf (id : Bytes) : Nat :=
+  match id.getLast? with
+  | some c => if 97 ≤ c.toNat ∧ c.toNat ≤ 122 then 7 * (c.toNat - 97) else 0
+  | none => 0
+
+/-- all modules on one block of the fork tree -/
+def runBlockF (cfg : FCfg) (st : LState) (num : Nat) (id : Bytes) : Except LErr BlockAcc :=
+  (usedMods cfg.world cfg.output).foldlM
+    (runModuleE (usedMods cfg.world cfg.output) cfg.maxDepth num (num + saltOf id)) ⟨st, [], [], []⟩
+
 def handleNew (cfg : FCfg) (fs : FState) (s : FStep) : FState :=
   let fs := { fs with insideReorg := none }
   if cfg.stop ≠ 0 ∧ s.num ≥ cfg.stop then { fs with ended := true } else
-  match (usedMods cfg.world cfg.output).foldlM (runModule (usedMods cfg.world cfg.output) cfg.maxDepth s.num) ⟨fs.st, [], [], []⟩ with
+  match runBlockF cfg fs.st s.num s.id with
   | .error _ => { fs with ended := true }
   | .ok acc =>
     let payload := (outputOf cfg.output acc.outs).getD []
